@@ -29,6 +29,10 @@ def arms(tier):
     for l in ((5, 8) if tier == "quick" else range(4, PIPE_SIZE + 1)):
         for n in ((2, 4, 9) if tier == "quick" else range(1, 11)):
             out.append(("c14_readw_l%d_n%d" % (l, n), "readw", l, n))
+    # the write(2) loop above the buffer (OpenFileDescription::poll_write_full): fill level x request size
+    for l in ((0, 5, 8) if tier == "quick" else lens):
+        for n in ((3, 9) if tier == "quick" else (0, 1, 3, 4, 5, 9, 11)):
+            out.append(("c14_wfull_l%d_n%d" % (l, n), "wfull", l, n))
     return out
 
 
@@ -48,11 +52,16 @@ def setup(w, name="", tier="thorough", selected=None):
                "use crate::waker::WakerSet;", "use crate::verif_ws::WakerSet;")
     w.transform("T6 PIPE_BUF 512->4 (PIPE_SIZE = 2 * PIPE_BUF = 8)", fb, "pub const PIPE_BUF: usize = 512;",
                 "#[cfg(not(kani))]\npub const PIPE_BUF: usize = 512;\n#[cfg(kani)]\npub const PIPE_BUF: usize = 4;")
-    with open(os.path.join(w.hdir, "incrate", "c14_fifo.rs"), "a") as f:
+    with open(os.path.join(w.hdir, "incrate", "c14_fifo.rs"), "a") as f, \
+            open(os.path.join(w.hdir, "incrate", "c14_io.rs"), "a") as g:
         for nm, step, l, n in arms("thorough"):
             if selected is None or nm in selected:
-                f.write("arm!(%s, step_%s, %d, %d);\n" % (nm, step, l, n))
+                if step == "wfull":
+                    g.write("arm!(%s, %d, %d);\n" % (nm, l, n))
+                else:
+                    f.write("arm!(%s, step_%s, %d, %d);\n" % (nm, step, l, n))
     w.inject(fb, "c14_fifo.rs")
+    w.inject("yash-env/src/system/virtual/io.rs", "c14_io.rs")
     return core.KaniSession(w, w.ws, pkg="yash-env", tag="env", zflags=["stubbing"])
 
 
@@ -74,6 +83,19 @@ def native_cases(step):
 def harnesses(tier):
     hs = []
     for nm, step, l, n in arms(tier):
+        if step == "wfull":
+            hs.append(Harness(nm, "pipe holding %d of %d bytes, write(2) request of %d bytes of which a symbolic number was already "
+                              "transferred; blocking / non-blocking descriptor, reader count, byte values symbolic" % (l, PIPE_SIZE, n),
+                              ["yash_env::system::r#virtual::OpenFileDescription::poll_write_full",
+                               "yash_env::system::r#virtual::OpenFileDescription::poll_write",
+                               "yash_env::system::r#virtual::FileBody::poll_write"],
+                              "one poll of the write loop: the running total grows by exactly what the pipe accepted, completes only when "
+                              "everything is transferred, blocks without splitting an atomic rest, reports EPIPE / EAGAIN / the partial count",
+                              timeout=900, mem_gb=12, mod="system::r#virtual::io::verif_c14_io", cover_group="c14_wfull",
+                              # the write loop makes at most 3 rounds (write, write / block, done); unwound 14 times with the byte
+                              # loops of VecDeque::extend inside, symbolic execution alone took > 15 min
+                              cbmc_unwind=13, loop_bounds=[(r"function system::r#virtual::io::OpenFileDescription::poll_write_full", 4)]))
+            continue
         fn = "yash_env::system::r#virtual::FileBody::poll_" + step.rstrip("w")
         hs.append(Harness(nm, "pipe holding %d of %d bytes, %s request of %d bytes (PIPE_BUF scaled to %d); byte values, reader and "
                           "writer counts symbolic" % (l, PIPE_SIZE, step, n, PIPE_BUF), [fn],
